@@ -169,6 +169,11 @@ Section Inv.
     (eff_known e = true -> d_mtime d = d_mtime (x_d e)) /\ d_rdev d = d_rdev (x_d e) /\
     d_target d = d_target (x_d e) /\ d_xattrs d = d_xattrs (x_d e) /\ d_content d = d_content (x_d e).
 
+  (* what a directory made above the target carries whenever the options ask for it *)
+  Definition mkfacts (d : dent) : Prop :=
+    (forall t, o_utime o = Some t -> d_mtime d = t) /\
+    (forall u g, o_chown o = Some (u, g) -> d_uid d = u /\ d_gid d = g).
+
   Definition xex (d : dent) (k : ikey) (m : bool) : xdent := {| x_d := d; x_known := true; x_key := k; x_mk := m |}.
   Lemma dm_xex d k m : dm d (xex d k m).
   Proof. unfold dm; simpl; repeat split; auto. Qed.
